@@ -40,7 +40,7 @@ def _src_files():
 
 def tree_key(variant):
     h = hashlib.sha256()
-    h.update(("v5|" + variant + "|" + " ".join(VARIANTS[variant])).encode())
+    h.update(("v6|" + variant + "|" + " ".join(VARIANTS[variant])).encode())
     for p in _src_files():
         h.update(os.path.relpath(p, REPO).encode() + b"\0")
         with open(p, "rb") as f:
@@ -123,6 +123,10 @@ def build_lib(variant="def", quiet=True):
                         "((const typeof(tab[0]) *)b)->n); }\n")
                 f.write("void *sym_lookup(const char *name) { const typeof(tab[0]) *e = bsearch(name, tab, "
                         "sizeof tab / sizeof tab[0], sizeof tab[0], cmp); return e ? (void *)e->f : NULL; }\n")
+                f.write("int sym_count(void) { return (int)(sizeof tab / sizeof tab[0]); }\n"
+                        "void *sym_at(int i, const char **name) { *name = tab[i].n; return (void *)tab[i].f; }\n"
+                        "const char *sym_name(void *a) { for (unsigned i = 0; i < sizeof tab / sizeof tab[0]; i++) "
+                        "if ((void *)tab[i].f == a) return tab[i].n; return NULL; }\n")
             # keep the per-object files for the ISA / statics inventory (C12, C18)
             os.makedirs(os.path.join(tmp, "objs"))
             for o in glob.glob(os.path.join(scratch, "bin", "*.o")):
